@@ -196,18 +196,21 @@ def deqReturn (s : State) (it : Item) : State :=
            returned := s.returned ++ [it.data], main := .idle,
            rets := s.rets ++ [.deq (some it.data)] }
 
+/-- `try_dequeue_done` found nothing.  Pinned code: `pthread_cond_wait(&pool->done_cond)`.
+Repaired code: first `if (pool->status != 0) break;` — unlock and return NULL. -/
+def deqWaitOrNull (cfg : Cfg) (s : State) : State :=
+  if cfg.repaired && decide (s.status ≠ 0) then
+    { s with main := .idle, rets := s.rets ++ [.deq none] }
+  else { s with main := .deqWait false }
+
 /-- body of the `for (;;)` loop of `dequeue`, holding the mutex -/
 def deqTry (cfg : Cfg) (s : State) : State :=
-  let waitOrNull : State :=
-    if cfg.repaired && decide (s.status ≠ 0) then
-      { s with main := .idle, rets := s.rets ++ [.deq none] }
-    else { s with main := .deqWait false }
   match s.done with
-  | [] => waitOrNull
+  | [] => deqWaitOrNull cfg s
   | it :: r =>
       if it.ticket = s.nextDeq then
         deqReturn { s with done := r, nextDeq := s.nextDeq + 1 } it
-      else waitOrNull
+      else deqWaitOrNull cfg s
 
 /-- what the scheduler lets the main thread do -/
 inductive MChoice where
